@@ -1021,8 +1021,10 @@ def run(ctx):
         'polynomial identities); chi2 is compared with an absolute tolerance tied to the residual scale, not to |b*sqivar|^2',
         'recorded float systems (high signal-to-noise, noise-free): chi2 >= 0, chi2 vs the weighted residual of the RETURNED '
         'yfit, gradient and covar inverse are harness-measured and judged by TLC as scaled integers (exploration level)',
-        'HMF seed determinism is exercised with seed = 0 and random seeds, on data for which a control pair of UNSEEDED runs '
-        'from the same two global RNG states differs',
+        'HMF seed determinism (results of solve() depend on data, K, seed, mode only) is exercised with seed = 0 and random '
+        'seeds under three histories of the global numpy RNG: twins constructed and solved from different RNG states; both '
+        'twins constructed first, RNG used, solve A, RNG used, solve B; construct A, solve an unrelated HMF, solve A versus '
+        'a fresh construct-and-solve - each on data for which an UNSEEDED control pair under the same history differs',
         'code -> spec for (a) abstracts every float to the rational with denominator <= 10^4 within 1e-9; systems are '
         'drawn so that the exact denominators stay below that bound',
         'HARNESS-EVALUATED numeric relations (level exploration, not model checking): pcomp laws on scaled integers '
